@@ -169,7 +169,8 @@ func runScenario(sc scen) []rec.Event {
 			p := pattern(i, n)
 			var k int
 			var werr error
-			if !within(10*time.Second, func() { pan = guard(func() { k, werr = conn.Write(p) }) }) {
+			sim.Note("writeCall", n)
+			if !within(10*time.Second, func() { pan = guard(func() { k, werr = conn.Write(p) }); sim.Note("writeRet", k) }) {
 				add(rec.Event{"op": "Api", "call": "Write", "ok": false, "panic": "", "err": "Write did not return"})
 				return evs
 			}
